@@ -181,6 +181,7 @@ type run struct {
 	t0   time.Time
 	dlen uint8
 	xid  uint32
+	in   *intState // integrated-allocator mode (int.go); nil = legacy pools
 }
 
 func (comp) NewRun() hx.Run { return &run{} }
@@ -320,8 +321,8 @@ func join(xs []string) string {
 	return strings.Join(xs, ",")
 }
 
-func (r *run) snapshot() string {
-	ls := r.srv.LeasesForVerif()
+// snapshotLeases: the lease table, sorted by client
+func (r *run) snapshotLeases(ls []dhcpv6.LeaseForVerif) string {
 	sort.Slice(ls, func(i, j int) bool { return tagNum(duidTok(ls[i].ClientDUID)) < tagNum(duidTok(ls[j].ClientDUID)) })
 	var lt []string
 	for _, l := range ls {
@@ -335,6 +336,14 @@ func (r *run) snapshot() string {
 		}
 		lt = append(lt, fmt.Sprintf("%s:%s:%s:%d:%s", duidTok(l.ClientDUID), ip6Hex(l.Address), pfx, l.IAID, ve))
 	}
+	return join(lt)
+}
+
+func (r *run) snapshot() string {
+	if r.in != nil {
+		return r.snapshotInt()
+	}
+	lt := r.snapshotLeases(r.srv.LeasesForVerif())
 	ps := r.srv.PoolStateForVerif()
 	var keys []string
 	for k := range ps.AddrAllocated {
@@ -362,7 +371,7 @@ func (r *run) snapshot() string {
 	for _, p := range ps.PrefixAvailable {
 		pa = append(pa, ip6Hex(p.IP))
 	}
-	return fmt.Sprintf("L=%s AP=%s AA=%s PP=%s PA=%s", join(lt), join(ap), join(aa), join(pp), join(pa))
+	return fmt.Sprintf("L=%s AP=%s AA=%s PP=%s PA=%s", lt, join(ap), join(aa), join(pp), join(pa))
 }
 
 func (r *run) Do(op string) string {
@@ -373,10 +382,15 @@ func (r *run) Do(op string) string {
 	if f[0] == "newpool" || f[0] == "newapool" {
 		return constructed(f)
 	}
+	if f[0] == "newint" {
+		r.in = nil
+		return r.newInt(f)
+	}
 	if f[0] == "new" {
 		if len(f) != 5 {
 			return "badop"
 		}
+		r.in = nil
 		if err := openSockets(); err != nil {
 			return "invalid sockets: " + err.Error()
 		}
@@ -418,6 +432,8 @@ func (r *run) Do(op string) string {
 	}
 	var reply string
 	switch f[0] {
+	case "fault":
+		return r.fault(f)
 	case "sol":
 		if len(f) != 5 || (f[2] != "0" && f[2] != "1") {
 			return "badop"
@@ -772,6 +788,10 @@ func genPools(tier string, emit func([]string)) {
 }
 
 func (comp) Gen(r *rand.Rand, tier string, emit func([]string)) {
+	if OnlyInt {
+		genInt(r, tier, emit)
+		return
+	}
 	genPools(tier, emit)
 	if OnlyPools {
 		return
@@ -801,8 +821,9 @@ func (comp) Gen(r *rand.Rand, tier string, emit func([]string)) {
 	exhaustive6(r, tier, emit)
 }
 
-// exhaustive6: every sequence of depth 5 over 2 clients (11 letters, ONE-address pool) and of depth 4 over
-// 3 clients (16 letters, 3 addresses + 2 prefixes), each followed by two closing REQUESTs
+// exhaustive6: every sequence of depth 5 over 2 clients (11 letters, ONE-address pool), of depth 4 over
+// 3 clients (16 letters, 3 addresses + 2 prefixes) and of depth 4 over 2 clients with RENEW on the ONE-address pool
+// (11 letters), each followed by two closing REQUESTs
 // (thorough: all ~0.23 million; quick: a seeded sample)
 func exhaustive6(r *rand.Rand, tier string, emit func([]string)) {
 	for _, sc := range []struct {
@@ -810,7 +831,10 @@ func exhaustive6(r *rand.Rand, tier string, emit func([]string)) {
 		clients, depth int
 		renew          bool
 		keep           int
-	}{{geos6[2], 2, 5, false, 60}, {geos6[1], 3, 4, true, 30}} {
+	}{{geos6[2], 2, 5, false, 60}, {geos6[1], 3, 4, true, 30},
+		// review item C11: a ONE-address pool that runs dry, with RENEW in the alphabet (a refused REQUEST leaves an empty
+		// lease that RENEW then takes for a binding)
+		{geos6[2], 2, 4, true, 12}} {
 		var alpha []string
 		for k := 1; k <= sc.clients; k++ {
 			d := fmt.Sprintf("d%d", k)
